@@ -313,7 +313,7 @@ ADDENDA10 = {
     "C11": ("; must-definition of destination and scratch registers in two-operand (SSE/MMX) rules, with the shift-out idiom modelled (shared with C17); provenance rule for the compiler's flag word", " Also decides that an SSE/MMX rule reads no register nobody wrote, and that compiler->target_flags is the request's flag word."),
     "C12": ("; line-termination rule for directly written listing fragments", " Also decides that no directly written listing fragment can swallow the first instruction of the deferred instruction text."),
     "C13": ("; name-blindness of the constructors the bytecode reader calls with placeholder names", " Also decides that re-creating several variables under one placeholder name cannot lose any."),
-    "C14": ("; errno-cleared rule for judged conversions; step-count rules for search loops (shared with C05)", " Also decides that a number's range test does not depend on what was parsed before, and that no declared size or offset can make the compile spin."),
+    "C14": ("; errno-cleared rule for judged conversions; step-count rules for search loops (shared with C05); store-before-read rule for out-parameters of the entry points", " Also decides that a number's range test does not depend on what was parsed before, that no declared size or offset can make the compile spin, and that no entry point reads the caller's object behind an out-parameter before storing into it."),
     "C15": ("; exact-spelling rule for shared literal slots; signed-int rule for constants narrower than 8 bytes; errno-cleared rule (shared with C14)", " Also decides that only the parser's own literal spelling shares a slot by value, and that a narrow constant from text is the int the API makes of it."),
     "C16": ("; ownership rule for variable names in the compiler's shallow copy", " Also decides that the compiler frees only the names of its own temporaries."),
     "C17": ("; must-definition of destination and scratch registers in two-operand (SSE/MMX) rules", " Also decides that no SSE/MMX rule computes with what a register held before the rule ran."),
